@@ -7,6 +7,7 @@ import (
 	"crypto/sha256"
 	"crypto/x509"
 	"encoding/hex"
+	"errors"
 	"fmt"
 	"math/big"
 
@@ -64,6 +65,10 @@ func NewPrivateKeyFromBytes(b []byte) (*PrivateKey, error) {
 		c = elliptic.P256()
 		d = new(big.Int).SetBytes(b)
 	)
+	// Values not below the group order are other spellings of smaller scalars.
+	if d.Cmp(c.Params().N) >= 0 {
+		return nil, errors.New("invalid private key: out of range")
+	}
 
 	x, y := c.ScalarBaseMult(b) // nolint: staticcheck
 
